@@ -8,6 +8,7 @@ import (
 
 	sentinel "github.com/alibaba/sentinel-golang/api"
 	"github.com/alibaba/sentinel-golang/core/base"
+	"github.com/alibaba/sentinel-golang/core/stat"
 	"github.com/alibaba/sentinel-golang/core/system"
 	"github.com/alibaba/sentinel-golang/core/system_metric"
 
@@ -23,6 +24,9 @@ type ruleD struct {
 	Trigger float64 `json:"trigger"`
 	BBR     bool    `json:"bbr"`
 	Valid   bool    `json:"valid"`
+	// Strat: the raw strategy value when the rule is not BBR: -1 (NoAdaptive), 0 (field left unset) or another
+	// number - every value but BBR means "hard cut-off"
+	Strat int `json:"strategy_raw,omitempty"`
 }
 
 type op struct {
@@ -50,7 +54,7 @@ func genCase(rng *rand.Rand) *caseDesc {
 	c := &caseDesc{}
 	nextID := 0
 	genRule := func() ruleD {
-		r := ruleD{ID: fmt.Sprintf("s%d", nextID), Metric: rng.Intn(5), BBR: rng.Intn(2) == 0, Valid: true}
+		r := ruleD{ID: fmt.Sprintf("s%d", nextID), Metric: rng.Intn(5), BBR: rng.Intn(2) == 0, Valid: true, Strat: vk.PickI(rng, -1, -1, 0, 0, 2, -2)}
 		nextID++
 		switch r.Metric {
 		case 0:
@@ -86,6 +90,10 @@ func genCase(rng *rand.Rand) *caseDesc {
 	for i, n := 0, 30+rng.Intn(120); i < n; i++ {
 		var o op
 		switch k := rng.Intn(21); {
+		case k == 20 && rng.Intn(3) == 0:
+			// the library's per-resource statistic nodes are dropped (exported housekeeping call): the inbound totals
+			// the system rules read are not per-resource state and must be unaffected
+			o.K = "drop-resource-nodes"
 		case k == 20:
 			o.K = "reload"
 			nl := append([]ruleD(nil), cur...)
@@ -154,7 +162,7 @@ func runCase(idx int, c *caseDesc) {
 	loadRules := func(l []ruleD) {
 		rules := []*system.Rule{}
 		for _, r := range l {
-			st := system.NoAdaptive
+			st := system.AdaptiveStrategy(r.Strat)
 			if r.BBR {
 				st = system.BBR
 			}
@@ -185,6 +193,8 @@ func runCase(idx int, c *caseDesc) {
 		switch o.K {
 		case "adv":
 			clk.AddMs(o.Dt)
+		case "drop-resource-nodes":
+			stat.ResetResourceNodeMap()
 		case "reload":
 			loadRules(o.Rules)
 			run.Count("reloads", 1)
